@@ -78,9 +78,9 @@ def run_harness(args, stdin_obj=None, timeout=1800, race=False, env_extra=None, 
                                timeout=timeout, env=env, cwd=cwd)
         except subprocess.TimeoutExpired:
             raise Inconclusive('harness timeout: %s' % ' '.join(args))
-        if p.returncode != 3:
+        if p.returncode != 4:
             break
-        # exit status 3 = the harness's own watchdog: a work item made no progress (seen once: all workers parked in
+        # exit status 4 = the harness's own watchdog: a work item made no progress (seen once: all workers parked in
         # runtime.GC() called by SendOnce, a stall of the Go runtime, not of Lightning Stream) - run it again
         sys.stderr.write('[harness] watchdog exit (attempt %d): %s\n%s\n' % (attempt + 1, ' '.join(args), p.stderr[:1500]))
     if p.returncode != 0:
